@@ -17,7 +17,7 @@ META = dict(
               "k=2, all shapes on 4 atoms with <=3 bonds (hcount 0..1, charge 0); forward and "
               "invert=True; strategies all/comp/bt; implicit-hydrogen mode (implicit_temp=True, explicit_h=False); explicit-hydrogen "
               "mode (default flags) for two concrete templates with hydrogen atoms in the centre (keto-enol shift, MPV transfer "
-              "hydrogenation with two independent hydrogen migrations, esterification as full-ITS template with a non-migrating explicit hydrogen) on their skeleton with symbolic substituents and every numbering",
+              "hydrogenation with two independent hydrogen migrations, esterification as full-ITS template with a non-migrating explicit hydrogen, deprotonation to a free H+, imine condensation with two hydrogens moving between the same pair of atoms) on their skeleton with symbolic substituents and every numbering",
         thorough="more strategy/direction combinations for k=3, all strategies on 4-atom substrates, k=3 templates without "
                  "hydrogens on 4-atom substrates",
     ),
@@ -139,6 +139,18 @@ XH_FAMILIES = {
     "ester": dict(heavy={2: "C", 3: "O", 4: "O", 6: "C", 7: "O"}, hyd=[5, 8], full=True,
                   G=[(2, 3, 2), (2, 4, 1), (4, 5, 1), (6, 7, 1), (7, 8, 1)], H=[(2, 3, 2), (2, 7, 1), (6, 7, 1), (4, 5, 1), (4, 8, 1)],
                   sub_bonds=[(2, 3, 2), (2, 4, 1), (6, 7, 1), (2, 9, 1)], sub_h={2: 0, 3: 0, 4: 1, 6: 3, 7: 1}),
+    # deprotonation: the hydrogen itself changes (X-H -> X- + H+)
+    "deprot": dict(heavy={1: "O"}, hyd=[2], G=[(1, 2, 1)], H=[], charge_H={1: -1, 2: 1},
+                   sub_bonds=[(1, 7, 1)], sub_h={1: 1}),
+    # condensation: both hydrogens of NH2 go to the same oxygen (two migrations between one donor/acceptor pair)
+    "imine": dict(heavy={1: "C", 2: "O", 3: "N"}, hyd=[4, 5],
+                  G=[(1, 2, 2), (3, 4, 1), (3, 5, 1)], H=[(1, 3, 2), (2, 4, 1), (2, 5, 1)],
+                  sub_bonds=[(1, 2, 2), (1, 7, 1), (3, 8, 1)], sub_h={1: 1, 2: 0, 3: 2}),
+    # reductive amination: backwards, water's oxygen keeps one hydrogen implicit (it goes to N) next to an explicit one
+    # (it ends in H-H)
+    "redam": dict(heavy={1: "C", 2: "O", 3: "N"}, hyd=[4, 5, 6],
+                  G=[(1, 2, 2), (3, 4, 1), (5, 6, 1)], H=[(1, 3, 1), (1, 5, 1), (2, 4, 1), (2, 6, 1)],
+                  sub_bonds=[(1, 2, 2), (1, 7, 1), (3, 8, 1)], sub_h={1: 1, 2: 0, 3: 2}),
     "enol": dict(heavy={1: "C", 3: "C", 4: "O"}, hyd=[2],
                  G=[(1, 2, 1), (1, 3, 1), (3, 4, 2)], H=[(1, 3, 2), (3, 4, 1), (4, 2, 1)],
                  sub_bonds=[(1, 3, 1), (3, 4, 2), (3, 7, 1)], sub_h={1: 1, 3: 0, 4: 0}),
@@ -182,6 +194,8 @@ def h_explicit(E, family):
         Gt.add_edge(u, v, order=o)
     for u, v, o in fam["H"]:
         Ht.add_edge(u, v, order=o)
+    for v, c in fam.get("charge_H", {}).items():
+        Ht.nodes[v]["charge"] = c
     tmpl_its = ITSConstruction.ITSGraph(Gt, Ht)
     rc = tmpl_its if fam.get("full") else get_rc(tmpl_its)
     # substrate: the template's heavy skeleton with implicit hydrogens, substituents with symbolic labels, and a
@@ -257,6 +271,6 @@ def shards(tier, seed):
                 sh.append(dict(h="instance", params=dict(k=2, hn=4, hedges=he, strategy=strategy, invert=False, lite=q)))
             if not q:
                 sh.append(dict(h="instance", params=dict(k=3, hn=4, hedges=he, strategy="all", invert=False, hmax_t=0, lite=True)))
-    for fam in ("enol", "MPV", "ester"):
+    for fam in ("enol", "MPV", "ester", "deprot", "imine"):
         sh.append(dict(h="explicit", params=dict(family=fam)))
     return sh
